@@ -68,7 +68,7 @@ Qed.
 Lemma deliver_facts s f : NInv s -> In f (n_emitted s) ->
   exists o r' sp sp',
     handle_frame (n_recv s) (ef_off f) (ef_data f) (ef_fin f) = (o, r') /\
-    Inv (n_recv s) sp /\ Inv r' sp' /\ SpecOk (n_written s) (eof s) sp' /\
+    Inv true (n_recv s) sp /\ Inv true r' sp' /\ SpecOk (n_written s) (eof s) sp' /\
     n_dbytes s = ztake (sp_del sp) (n_written s) /\
     r_finished (n_recv s) = opt_eqb (sp_final sp) (sp_del sp) /\
     r_finished r' = opt_eqb (sp_final sp') (sp_del sp') /\
@@ -78,14 +78,14 @@ Lemma deliver_facts s f : NInv s -> In f (n_emitted s) ->
     (opt_eqb (sp_final sp) (sp_del sp) = true -> sp_del sp' = sp_del sp /\ opt_eqb (sp_final sp') (sp_del sp') = true).
 Proof.
   intros I Hf. destruct (ni_recv _ I) as (sp & V & S & D & E).
-  pose proof (frame_refines (n_recv s) sp (ef_off f) (ef_data f) (ef_fin f) V) as FR.
+  pose proof (frame_refines_strict (n_recv s) sp (ef_off f) (ef_data f) (ef_fin f) V) as FR.
   pose proof (spec_frame_consistent _ _ sp _ _ _ S (ni_emitted _ I f Hf)) as SC.
   destruct (handle_frame (n_recv s) (ef_off f) (ef_data f) (ef_fin f)) as [o r'].
   destruct (spec_frame sp (ef_off f) (ef_data f) (ef_fin f)) as [o' sp'].
   destruct FR as (Eo & V'). subst o'. destruct SC as (S' & Hle & Hout & Hfin).
   exists o, r', sp, sp'. split; [reflexivity|]. split; [exact V|]. split; [exact V'|]. split; [exact S'|]. split; [exact D|].
-  split; [rewrite (i_finished _ _ V), (i_final _ _ V), (i_start _ _ V); reflexivity|].
-  split; [rewrite (i_finished _ _ V'), (i_final _ _ V'), (i_start _ _ V'); reflexivity|].
+  split; [rewrite (i_finished _ _ _ V eq_refl), (i_final _ _ _ V), (i_start _ _ _ V); reflexivity|].
+  split; [rewrite (i_finished _ _ _ V' eq_refl), (i_final _ _ _ V'), (i_start _ _ _ V'); reflexivity|].
   split; [exact Hout|exact Hfin].
 Qed.
 
@@ -192,7 +192,7 @@ Proof.
   - exists (zdrop (sp_del sp) (n_written s)). rewrite D. unfold ztake, zdrop. symmetry. apply firstn_skipn.
   - rewrite E. destruct (r_finished (n_recv s)); cbn; lia.
   - intros H1. rewrite E in H1. destruct (r_finished (n_recv s)) eqn:F; [|discriminate].
-    rewrite (i_finished _ _ V), (i_final _ _ V), (i_start _ _ V) in F.
+    rewrite (i_finished _ _ _ V eq_refl), (i_final _ _ _ V), (i_start _ _ _ V) in F.
     destruct (sp_final sp) as [f|] eqn:Ff; [|discriminate]. cbn [opt_eqb] in F.
     destruct (so_final _ _ _ S f Ff) as (X & Y). split; [exact X|].
     rewrite D. replace (sp_del sp) with (Zlen (n_written s)) by lia. apply ztake_ztake_all.
